@@ -167,6 +167,8 @@ def run(tier, seed, replay):
     allstr = list(strings(maxlen))
     mutated = ["GetX", "MustGetX", "GetXInContext", "Get", "Container", "Root", "getX", "Get_X", "_Get", "G", "example.com/lib.NewA", "\"example.com/lib\".NewA",
                "\".\".NewA", "\"a b\".New", "a/b/c.New", "a//b.New", "lib.New.More", "&Value", "&\"a/b\".Var.Field.Sub", "a/b.T{}", "&a/b.T{}", "T{}{}", "&&V",
+               "AddDecorator", "CircularDeps", "GetInContext", "GetParam", "GetTaggedBy", "GetTaggedByInContext", "HotSwap", "IsTaggedBy", "OverrideParam", "OverrideService",
+               "@db", "NewA()", "GetX\n", "a:b", "a,b", "a+b", "a#b", "a$b", "a\\b", "a'b", "a(b)", "\u00e9", "\u4e2d", "x" * 63,
                "*T", "**T", "*a/b.T", "*\"a/b\".T", "[]T", "a.b-c_d", "a--b", "a.", ".a", "é", "a\nb", "a\tb", "tag*", "*", "**", "x" * 64]
     specs = []
     plan = []   # per spec: (pos, carriers)
@@ -177,7 +179,8 @@ def run(tier, seed, replay):
             cands = [c for c in cands if len(c) <= 2 or r.random() < 0.34]
         cands = cands + [m for m in mutated if m not in cands]
         if pos in ("pkg", "ctype", "cctor"):
-            cands = r.sample(cands, 40 if tier == "quick" else 300)
+            must = [c for c in cands if len(c) <= 1] + [m for m in mutated if m in cands][:25] + ["init", "main", "rootGontainer", "c", "func", "type"]
+            cands = must + [c for c in r.sample(cands, 40 if tier == "quick" else 300) if c not in must]
             chunks = [[c] for c in cands]
         else:
             # YAML mapping keys must be unique per config
@@ -209,6 +212,64 @@ def run(tier, seed, replay):
     sp["what"] = ["valid-imports-used"]
     specs.append(sp)
     plan.append(("all-valid", None))
+    # shapes of tags, scope keywords and booleans (decided by the YAML decoding methods, which also feed the model: own tables here)
+    SHAPES = [("tags", "[t]", True), ("tags", "[{name: t}]", True), ("tags", "[{name: t, priority: 3}]", True), ("tags", "[{name: t, priority: -3}]", True),
+              ("tags", "[{name: t, priority: \"3\"}]", False), ("tags", "[{priority: 1}]", False), ("tags", "[{name: 7}]", False), ("tags", "[[t]]", False), ("tags", "[{name: t, priority: 1.5}]", False),
+              ("tags", "[{name: t, prio: 1}]", None), ("tags", "t", False), ("tags", "[t, t]", False), ("tags", "[a, b, a]", False), ("tags", "[a, {name: a, priority: 2}]", False), ("tags", "[a, a, b, b]", False),
+              ("tags", "[~]", None), ("tags", "[7]", False), ("tags", "{name: t}", False),
+              ("scope", "shared", True), ("scope", "contextual", True), ("scope", "non_shared", True), ("scope", "Shared", False), ("scope", "\"non-shared\"", False), ("scope", "nonshared", False),
+              ("scope", "\"\"", False), ("scope", "1", False), ("scope", "[shared]", False), ("scope", "default", None), ("scope", "~", True),
+              ("todo", "true", True), ("todo", "false", True), ("todo", "\"yes\"", None), ("todo", "1", False), ("todo", "~", True),
+              ("must_getter", "true", True), ("must_getter", "false", True), ("must_getter", "1", False), ("must_getter", "\"true\"", None), ("must_getter", "maybe", False)]
+    for attr, txt, want in SHAPES:
+        body = "    value: Value\n    getter: GetS\n" if attr != "todo" else "    value: Value\n"
+        sp = common.mk_spec(len(specs), ["services:\n  s:\n%s    %s: %s\n" % (body, attr, txt)])
+        sp["what"] = ["attr-shape:%s" % attr]
+        specs.append(sp)
+        plan.append(("attr-shape", (attr, txt, want)))
+    # duplicate getters (two / three owners, one of them a todo placeholder), duplicates that only arise after merging two files
+    DUPS = [({"a": {"value": "Value", "getter": "GetX"}, "b": {"value": "Value", "getter": "GetX"}}, False),
+            ({"a": {"value": "Value", "getter": "GetX"}, "b": {"value": "Value", "getter": "GetX"}, "c": {"value": "Value", "getter": "GetX"}}, False),
+            ({"a": {"value": "Value", "getter": "GetX"}, "b": {"todo": True, "getter": "GetX"}}, True),
+            ({"a": {"value": "Value", "getter": "GetX"}, "b": {"value": "Value", "getter": "GetY"}}, True)]
+    for svcs, want in DUPS:
+        sp = common.mk_spec(len(specs), [{"services": svcs}])
+        sp["what"] = ["duplicate-getter"]
+        specs.append(sp)
+        plan.append(("verdict", ("duplicate getters %s" % sorted(svcs), want)))
+    for f0, f1, want in [({"tags": ["a"]}, {"tags": ["a"]}, False), ({"tags": ["a"]}, {"tags": ["b"]}, True), ({"getter": "GetX"}, {"getter": "GetX"}, True)]:
+        sp = common.mk_spec(len(specs), [{"services": {"s": dict({"value": "Value"}, **f0)}}, {"services": {"s": f1}}])
+        sp["what"] = ["duplicate-after-merge"]
+        specs.append(sp)
+        plan.append(("verdict", ("%s then %s" % (f0, f1), want)))
+    # creation-method rules: constructor x value x type x arguments
+    for has_c, has_v, has_t, has_a in itertools.product([False, True], repeat=4):
+        sv = {}
+        if has_c:
+            sv["constructor"] = "NewA"
+        if has_v:
+            sv["value"] = "Value"
+        if has_t:
+            sv["type"] = "*T"
+        if has_a:
+            sv["arguments"] = [1]
+        # documented: a constructor or a value or (at least) a type; not constructor and value together; arguments only with a constructor
+        want = (has_c or has_v or has_t) and not (has_c and has_v) and not (has_a and not has_c)
+        sp = common.mk_spec(len(specs), [{"services": {"s": sv}}])
+        sp["what"] = ["creation-method"]
+        specs.append(sp)
+        plan.append(("verdict", ("creation %s" % sorted(sv), want)))
+    # todo: false is an ordinary service (its attributes are checked), todo: true with garbage is exempt
+    for sv, want in [({"todo": False, "constructor": "bad ctor"}, False), ({"todo": False, "value": "Value"}, True), ({"todo": True, "constructor": "bad ctor", "arguments": [[1]], "getter": "Get"}, True)]:
+        sp = common.mk_spec(len(specs), [{"services": {"s": sv}}])
+        sp["what"] = ["todo-exemption"]
+        specs.append(sp)
+        plan.append(("verdict", ("todo %s" % sv, want)))
+    # a version error and grammar errors are all reported in one run
+    sp = common.mk_spec(len(specs), [{"version": "9.9.9", "parameters": {"1bad": 1}, "services": {"s": {"constructor": "New X"}}}])
+    sp["what"] = ["version-and-grammar"]
+    specs.append(sp)
+    plan.append(("errors-contain", ["incompatible versions", "\"1bad\": invalid name", "constructor: invalid"]))
     # the shape of a call: [method], [method, args], [method, args, wither] and nothing else
     CALLS = [("[]", False), ("[M]", True), ("[M, []]", True), ("[M, [1], true]", True), ("[M, [1], false]", True), ("[M, [], false, extra]", False), ("[M, [], true, 1, 2]", False),
              ("[M, x]", False), ("[M, [], 1]", False), ("[[M]]", False), ("M", False), ("{method: M}", False), ("[M, ~]", None), ("[M, [], ~]", None), ("[1]", None), ("[~]", None)]
@@ -236,6 +297,25 @@ def run(tier, seed, replay):
     evals = 0
     samples = []
     for sp, ob, (pos, car) in zip(specs, obs, plan):
+        if pos == "attr-shape":
+            evals += 1
+            attr, txt, want = car
+            if want is not None and want != (ob.get("exit") == 0):
+                out.violation("attr-shape:%s:%s" % (attr, txt), "%s: %s is %s" % (attr, txt, "accepted" if ob.get("exit") == 0 else "rejected: %s" % (ob.get("errors") or [])[:2]), common.slim(sp, ob))
+            continue
+        if pos == "verdict":
+            evals += 1
+            desc, want = car
+            if want != (ob.get("exit") == 0):
+                out.violation("grammar-verdict:" + sp["what"][0], "%s: expected %s, the tool %s: %s" % (desc, "accept" if want else "reject", "accepts" if ob.get("exit") == 0 else "rejects", (ob.get("errors") or [])[:2]), common.slim(sp, ob))
+            continue
+        if pos == "errors-contain":
+            evals += 1
+            txt = "\n".join(ob.get("errors") or [])
+            miss = [w for w in car if w not in txt]
+            if miss:
+                out.violation("not-all-reported:" + sp["what"][0], "independent violations are not all reported in one run, missing: %s" % miss, common.slim(sp, ob))
+            continue
         if pos == "all-valid":
             evals += 1
             if ob.get("exit") != 0:
